@@ -55,7 +55,8 @@ def variants():
     v += [("seed", k) for k in ("geometry", "layer", "units", "probe_points", "name", "no_terminals", "fewer_terminals", "extra_hole", "renamed_terminal")]
     # the ill-posed state is reached on objects that were valid, and were used successfully, before
     v += [("history", k) for k in ("terminal_moved_inside", "terminal_moved_outside", "terminal_points_set", "terminals_reassigned", "options_mutated",
-                                   "currents_dict_mutated", "layer_changed_after_seed", "terminal_moved_after_seed")]
+                                   "currents_dict_mutated", "layer_changed_after_seed", "terminal_moved_after_seed",
+                                   "options_mutated_after_solver_built", "solver_name_mutated_after_solver_built")]
     v += [("vector_potential", k) for k in ("n", "n1", "nplus1", "scalar_callable")]
     v += [("polygon", k) for k in ("bowtie", "two_points", "interior_ring", "collinear")]
     v += [("device", k) for k in ("duplicate_terminals", "unnamed_terminal", "duplicate_holes", "unnamed_film", "probe_outside", "probe_in_hole", "probe_shape")]
@@ -267,6 +268,16 @@ def run_case(case):
             skw["seed_solution"] = first
         skw["terminal_currents"] = cur1
         make = lambda: tdgl.solve(d2, opts2, **skw)  # noqa: E731
+        if var.endswith("after_solver_built"):
+            # the solver object is built from a well-posed problem; the problem is made ill-posed in place before solve() is called
+            solver = tdgl.TDGLSolver(d2, opts2, **skw)
+            if var == "options_mutated_after_solver_built":
+                opts2.dt_init = opts2.dt_max * (1 + 1e-6)
+            else:
+                opts2.sparse_solver = "bogus"
+            # (moving a terminal polygon after the solver was built is not in this class: the solver simulates the problem it was
+            # built from, which is well-posed)
+            make = solver.solve
     elif cls == "vector_potential":
         n_e = len(dev.mesh.edge_mesh.edges)
         fn = {
